@@ -1,0 +1,154 @@
+//go:build verif
+
+// Contracts for package internal, read by /verif/engine (govc). Comment-only.
+
+package internal
+
+// ---- call options (C03, C13) ----
+//
+//@ func (*CallOptions).SetHeaders
+//@   loop loop#1 invariant[C03] forall i int :: 0 <= i && i <= rangeindex ==> *co.Headers[i] == md
+//@   ensures[C03] every_header_target_set: forall i int :: 0 <= i && i < len(co.Headers) ==> *co.Headers[i] == md
+//@   modifies mem("metadata.MD")
+//
+//@ func (*CallOptions).SetTrailers
+//@   loop loop#1 invariant[C03] forall i int :: 0 <= i && i <= rangeindex ==> *co.Trailers[i] == md
+//@   ensures[C03] every_trailer_target_set: forall i int :: 0 <= i && i < len(co.Trailers) ==> *co.Trailers[i] == md
+//@   modifies mem("metadata.MD")
+//
+//@ func (*CallOptions).SetPeer
+//@   loop loop#1 invariant[C13] source_unchanged: *p == old(*p)
+//@   loop loop#1 invariant[C13] forall i int :: 0 <= i && i <= rangeindex ==> *co.Peer[i] == old(*p)
+//@   ensures[C13] every_peer_target_set: forall i int :: 0 <= i && i < len(co.Peer) ==> *co.Peer[i] == old(*p)
+//@   modifies mem("peer.Peer")
+
+// ---- misc.go ----
+//
+//@ func TranslateContextError
+//@   ensures[C04] deadline: err == context.DeadlineExceeded ==> is_status_err(result) && err_status_code(result) == 4
+//@   ensures[C04] canceled: err == context.Canceled ==> is_status_err(result) && err_status_code(result) == 1
+//@   ensures[C04,C02] other_errors_unchanged: err != context.DeadlineExceeded && err != context.Canceled ==> result == err
+//@   ensures[C04] nil_iff_nil: (result == nil) <==> (err == nil)
+//@   modifies nothing
+//
+//@ func FindUnaryMethod
+//@   loop loop#1 invariant[C12] no_earlier_match: forall j int :: 0 <= j && j <= rangeindex ==> methods[j].MethodName != methodName
+//@   ensures[C12] absent_means_nil: result == nil ==> (forall j int :: 0 <= j && j < len(methods) ==> methods[j].MethodName != methodName)
+//@   ensures[C12] found_is_named: result != nil ==> result.MethodName == methodName
+//@   ensures[C12] found_is_first_element: result != nil ==> 0 <= i && i < len(methods) && result == &methods[i] && (forall j int :: 0 <= j && j < i ==> methods[j].MethodName != methodName)
+//@   modifies nothing
+//
+//@ func FindStreamingMethod
+//@   loop loop#1 invariant[C12] no_earlier_match: forall j int :: 0 <= j && j <= rangeindex ==> methods[j].StreamName != methodName
+//@   ensures[C12] absent_means_nil: result == nil ==> (forall j int :: 0 <= j && j < len(methods) ==> methods[j].StreamName != methodName)
+//@   ensures[C12] found_is_named: result != nil ==> result.StreamName == methodName
+//@   ensures[C12] found_is_first_element: result != nil ==> 0 <= i && i < len(methods) && result == &methods[i] && (forall j int :: 0 <= j && j < i ==> methods[j].StreamName != methodName)
+//@   modifies nothing
+
+// ---- call_options.go: per-RPC credentials (C13) ----
+//
+//@ define RTS = "credentials.PerRPCCredentials.RequireTransportSecurity"
+//@ func ApplyPerRPCCreds
+//@   ensures[C13] no_creds_passthrough: old(copts.Creds) == nil ==> result0 == ctx && result1 == nil
+//@   ensures[C13] no_creds_no_credential_calls: old(copts.Creds) == nil ==> !called("credentials.PerRPCCredentials.GetRequestMetadata") && !called("credentials.PerRPCCredentials.RequireTransportSecurity")
+//@   ensures[C13] error_returns_no_context: result1 != nil ==> result0 == nil
+//@   ensures[C13] insecure_transport_refused: called("credentials.PerRPCCredentials.RequireTransportSecurity") && lastresult("credentials.PerRPCCredentials.RequireTransportSecurity") && !isChannelSecure ==> result1 != nil && !called("credentials.PerRPCCredentials.GetRequestMetadata")
+//@   ensures[C13] security_always_consulted: old(copts.Creds) != nil ==> called("credentials.PerRPCCredentials.RequireTransportSecurity")
+//@   assert_call[C13] credentials.PerRPCCredentials.GetRequestMetadata : security_checked_first: called("credentials.PerRPCCredentials.RequireTransportSecurity") && (!lastresult("credentials.PerRPCCredentials.RequireTransportSecurity") || isChannelSecure)
+//@   assert_call[C13] credentials.PerRPCCredentials.GetRequestMetadata : asked_for_this_call: arg0 == copts.Creds && arg1 == ctx && len(arg2) == 1 && arg2[0] == uri
+//@   ensures[C13] creds_error_returned: called("credentials.PerRPCCredentials.GetRequestMetadata") && lastresult("credentials.PerRPCCredentials.GetRequestMetadata", 1) != nil ==> result1 == lastresult("credentials.PerRPCCredentials.GetRequestMetadata", 1)
+//@   ensures[C13] empty_metadata_keeps_context: result1 == nil && called("credentials.PerRPCCredentials.GetRequestMetadata") && len(lastresult("credentials.PerRPCCredentials.GetRequestMetadata", 0)) == 0 ==> result0 == ctx
+//@   ensures[C13] metadata_attached: result1 == nil && called("credentials.PerRPCCredentials.GetRequestMetadata") && len(lastresult("credentials.PerRPCCredentials.GetRequestMetadata", 0)) > 0 ==> called("metadata.NewOutgoingContext") && result0 == lastresult("metadata.NewOutgoingContext")
+//@   assert_call[C13] metadata.NewOutgoingContext : onto_callers_context: arg0 == ctx
+//@   assert_call[C13] metadata.NewOutgoingContext : merged_with_callers_metadata: lastresult("metadata.FromOutgoingContext", 1) ==> called("metadata.Join") && arg1 == lastresult("metadata.Join")
+//@   assert_call[C13] metadata.NewOutgoingContext : creds_only_when_caller_has_none: !lastresult("metadata.FromOutgoingContext", 1) ==> arg1 == lastresult("metadata.New")
+//@   assert_call[C13] metadata.Join : callers_values_first_then_creds: len(arg0) == 2 && arg0[0] == lastresult("metadata.FromOutgoingContext", 0) && arg0[1] == lastresult("metadata.New")
+//@   assert_call[C13] metadata.New : from_credentials: arg0 == lastresult("credentials.PerRPCCredentials.GetRequestMetadata", 0)
+//@   assert_call[C13] metadata.FromOutgoingContext : of_callers_context: arg0 == ctx
+//@   modifies external
+//
+//@ func GetCallOptions
+//@   ensures[C03,C13] result != nil && fresh(result)
+//@   modifies nothing
+
+// ---- transport_stream.go: UnaryServerTransportStream (C03) ----
+//
+//@ type UnaryServerTransportStream
+//@   guarded_by mu : hdrs, hdrsSent, tlrs, tlrsSent
+//
+//@ func (*UnaryServerTransportStream).GetHeaders
+//@   ensures[C03] result == sts.hdrs
+//@   modifies nothing
+//@ func (*UnaryServerTransportStream).GetTrailers
+//@   ensures[C03] result == sts.tlrs
+//@   modifies nothing
+//@ func (*UnaryServerTransportStream).Finish
+//@   ensures[C03] sts.hdrsSent && sts.tlrsSent
+//@   modifies sts.hdrsSent, sts.tlrsSent
+//@ func (*UnaryServerTransportStream).Method
+//@   ensures[C10] result == sts.Name
+//@   modifies nothing
+
+// Header / trailer accumulators (C03): per key the value list grows by exactly
+// the number of values given (append, never overwrite), keys not mentioned keep
+// their list, and once sent a further set fails and changes nothing. (Stated
+// for a metadata argument that is not the accumulator map itself.)
+//@ func (*UnaryServerTransportStream).setHeaderLocked
+//@   requires held(&sts.mu)
+//@   ensures[C03] sent_headers_refused_and_nothing_changes: old(sts.hdrsSent) ==> result != nil && sts.hdrs == old(sts.hdrs) && (forall k string :: has(sts.hdrs, k) == old(has(sts.hdrs, k)) && sts.hdrs[k] == old(sts.hdrs[k]))
+//@   loop loop#1 invariant[C03] map_ready: md != old(sts.hdrs) ==> sts.hdrs != nil && sts.hdrs != md && !(sts.hdrsSent) && held(&sts.mu) && (old(sts.hdrs) != nil ==> sts.hdrs == old(sts.hdrs))
+//@   loop loop#1 invariant[C03] visited_keys_grew_others_unchanged: md != old(sts.hdrs) ==> (forall k string :: (iter_visited(k) && has(md, k) ==> has(sts.hdrs, k) && len(sts.hdrs[k]) == old(len(sts.hdrs[k])) + len(md[k])) && (!iter_visited(k) ==> has(sts.hdrs, k) == old(has(sts.hdrs, k)) && (has(sts.hdrs, k) ==> sts.hdrs[k] == old(sts.hdrs[k]))))
+//@   loop loop#1 invariant[C03] source_map_unchanged: md != old(sts.hdrs) ==> (forall k string :: has(md, k) == old(has(md, k)) && md[k] == old(md[k]) && (iter_visited(k) ==> has(md, k)))
+//@   ensures[C03] every_given_key_grows_by_its_values: !old(sts.hdrsSent) && md != old(sts.hdrs) ==> (forall k string :: has(md, k) ==> has(sts.hdrs, k) && len(sts.hdrs[k]) == old(len(sts.hdrs[k])) + len(md[k]))
+//@   ensures[C03] other_keys_keep_their_values: !old(sts.hdrsSent) && md != old(sts.hdrs) ==> (forall k string :: !has(md, k) ==> has(sts.hdrs, k) == old(has(sts.hdrs, k)) && (has(sts.hdrs, k) ==> sts.hdrs[k] == old(sts.hdrs[k])))
+//@   ensures[C03] sent_headers_accepted_otherwise: !old(sts.hdrsSent) ==> result == nil
+//@   modifies sts.hdrs, maps("metadata.MD"), mem("string")
+//
+//@ func (*UnaryServerTransportStream).SetTrailer
+//@   ensures[C03] sent_trailers_refused_and_nothing_changes: at_lock(sts.tlrsSent) ==> result != nil && sts.tlrs == at_lock(sts.tlrs) && (forall k string :: has(sts.tlrs, k) == at_lock(has(sts.tlrs, k)) && sts.tlrs[k] == at_lock(sts.tlrs[k]))
+//@   loop loop#1 invariant[C03] map_ready: md != at_lock(sts.tlrs) ==> sts.tlrs != nil && sts.tlrs != md && !(sts.tlrsSent) && held(&sts.mu) && (at_lock(sts.tlrs) != nil ==> sts.tlrs == at_lock(sts.tlrs))
+//@   loop loop#1 invariant[C03] visited_keys_grew_others_unchanged: md != at_lock(sts.tlrs) ==> (forall k string :: (iter_visited(k) && has(md, k) ==> has(sts.tlrs, k) && len(sts.tlrs[k]) == at_lock(len(sts.tlrs[k])) + len(md[k])) && (!iter_visited(k) ==> has(sts.tlrs, k) == at_lock(has(sts.tlrs, k)) && (has(sts.tlrs, k) ==> sts.tlrs[k] == at_lock(sts.tlrs[k]))))
+//@   loop loop#1 invariant[C03] source_map_unchanged: md != at_lock(sts.tlrs) ==> (forall k string :: has(md, k) == at_lock(has(md, k)) && md[k] == at_lock(md[k]) && (iter_visited(k) ==> has(md, k)))
+//@   ensures[C03] every_given_key_grows_by_its_values: !at_lock(sts.tlrsSent) && md != at_lock(sts.tlrs) ==> (forall k string :: has(md, k) ==> has(sts.tlrs, k) && len(sts.tlrs[k]) == at_lock(len(sts.tlrs[k])) + len(md[k]))
+//@   ensures[C03] other_keys_keep_their_values: !at_lock(sts.tlrsSent) && md != at_lock(sts.tlrs) ==> (forall k string :: !has(md, k) ==> has(sts.tlrs, k) == at_lock(has(sts.tlrs, k)) && (has(sts.tlrs, k) ==> sts.tlrs[k] == at_lock(sts.tlrs[k])))
+//@   ensures[C03] sent_trailers_accepted_otherwise: !at_lock(sts.tlrsSent) ==> result == nil
+//@   modifies sts.tlrs, maps("metadata.MD"), mem("string")
+//
+//@ func (*UnaryServerTransportStream).SetHeader
+//@   ensures[C03] same_as_setHeaderLocked_under_the_lock: calls("(*UnaryServerTransportStream).setHeaderLocked") == 1 && result == lastresult("(*UnaryServerTransportStream).setHeaderLocked")
+//@   assert_call[C03] (*UnaryServerTransportStream).setHeaderLocked : arg0 == sts && arg1 == md
+//@   modifies sts.hdrs, maps("metadata.MD"), mem("string")
+//
+//@ func (*UnaryServerTransportStream).SendHeader
+//@   ensures[C03] sets_then_marks_sent: calls("(*UnaryServerTransportStream).setHeaderLocked") == 1 && (lastresult("(*UnaryServerTransportStream).setHeaderLocked") != nil ==> result == lastresult("(*UnaryServerTransportStream).setHeaderLocked")) && (lastresult("(*UnaryServerTransportStream).setHeaderLocked") == nil ==> result == nil)
+//@   assert_call[C03] (*UnaryServerTransportStream).setHeaderLocked : arg0 == sts && arg1 == md
+//@   modifies sts.hdrs, sts.hdrsSent, maps("metadata.MD"), mem("string")
+//
+//@ func (*ServerTransportStream).SetHeader
+//@   ensures[C03] delegates_once: calls("grpc.ServerStream.SetHeader") == 1 && result == lastresult("grpc.ServerStream.SetHeader")
+//@   assert_call[C03] grpc.ServerStream.SetHeader : arg0 == sts.Stream && arg1 == md
+//@   modifies everything
+//@ func (*ServerTransportStream).SendHeader
+//@   ensures[C03] delegates_once: calls("grpc.ServerStream.SendHeader") == 1 && result == lastresult("grpc.ServerStream.SendHeader")
+//@   assert_call[C03] grpc.ServerStream.SendHeader : arg0 == sts.Stream && arg1 == md
+//@   modifies everything
+//@ func (*ServerTransportStream).SetTrailer
+//@   ensures[C03] error_reporting_setter_preferred: called("internal.trailerWithErrors.TrySetTrailer") ==> result == lastresult("internal.trailerWithErrors.TrySetTrailer") && !called("grpc.ServerStream.SetTrailer")
+//@   ensures[C03] otherwise_plain_setter_once: !called("internal.trailerWithErrors.TrySetTrailer") ==> calls("grpc.ServerStream.SetTrailer") == 1 && result == nil
+//@   modifies everything
+
+// ---- misc.go: message copy helpers (C18, C06) ----
+//
+//@ func CopyMessage
+//@   ensures[C18] a_source_that_is_not_a_message_is_refused: !implements(in, "proto.Message") ==> result != nil && !called(".Reset") && !called("dynamic.TryMerge")
+//@   ensures[C18] a_destination_that_is_not_a_message_is_refused_untouched: !implements(out, "proto.Message") ==> result != nil && !called(".Reset") && !called("dynamic.TryMerge")
+//@   ensures[C18,C06] messages_are_reset_then_merged_exactly_once: implements(in, "proto.Message") && implements(out, "proto.Message") ==> calls(".Reset") == 1 && calls("dynamic.TryMerge") == 1 && result == lastresult("dynamic.TryMerge")
+//@   assert_call[C18,C06] .Reset : destination_is_cleared_before_merging: arg0 == out && !called("dynamic.TryMerge")
+//@   assert_call[C18,C06] dynamic.TryMerge : source_into_the_cleared_destination: arg0 == out && arg1 == in && calls(".Reset") == 1
+//@   modifies external
+//
+//@ func CloneMessage
+//@   ensures[C18] a_value_that_is_not_a_message_is_refused: !implements(m, "proto.Message") ==> result0 == nil && result1 != nil && !called("proto.Clone")
+//@   ensures[C18,C06] messages_are_deep_cloned_once: implements(m, "proto.Message") ==> calls("proto.Clone") == 1 && result1 == nil && result0 == lastresult("proto.Clone")
+//@   assert_call[C18,C06] proto.Clone : of_the_given_message: arg0 == m
+//@   modifies nothing
